@@ -26,6 +26,30 @@ chk("C02", "translation_validation",
     "symbolic execution of generated Python (pysym) + z3 LIA/strings, translation validation per program",
     "DESIGN.md section 6 C02")
 
+chk("C09", "translation_validation",
+    "Relational obligations over pairs of symbolic runs of the generated function (extra kwargs, experiment name, "
+    "splitter declaration order, argument order, condition-field values under the same selected return, missing "
+    "field) decided by z3 for all field values; sat-expected twins show the key does vary with every splitter and the salt.",
+    "Program pairs from the splitter family; Python keyword binding as implemented in pysym; str(int) abstracted by an "
+    "uninterpreted function (sound for equalities).",
+    "relational symbolic execution (pysym) + z3 strings/LIA/EUF", "DESIGN.md section 6 C09")
+
+chk("C12", "translation_validation",
+    "Three solver lemmas with MD5 uninterpreted: deterministic_proba(s) = top32(MD5(utf8 s))/2^32 for every string "
+    "(bit-precise binary64); the key handed to the choice function = salt + str(values of sorted splitters) for all "
+    "field values, per program x typing of the family; the choice function hashes exactly its input_id once. "
+    "Known-answer vectors anchor the MD5 symbol to hashlib.",
+    "Splitter family (1-4 splitters, all declaration orders, 9 salts, 4 bodies); MD5/UTF-8/str(float) uninterpreted; "
+    "'alphabetical' read as code-point order.",
+    "symbolic execution (pysym) + z3 QF_FP/strings/EUF term equality", "DESIGN.md section 6 C12")
+
+chk("C15", "translation_validation",
+    "The generated function together with the real deterministic_choice/deterministic_proba/bisect is executed "
+    "symbolically over str/int/binary64/bool/None splitter values and several salts; every path ending in an exception "
+    "is asked for feasibility (unsat = total); plus 0 <= position < 1 for all strings and equal keys for values that print identically.",
+    "Strings over Unicode scalar values up to U+2FFFF; ints below CPython's 4300-digit str() limit; concrete salt list.",
+    "symbolic execution (pysym) + z3 QF_FP/strings: infeasibility of every exception path", "DESIGN.md section 6 C15")
+
 NOT_APPLICABLE = {
     "C04": "statistical chi-square claim about MD5 output on concrete populations: not a forall-claim a solver can "
            "decide, and MD5's 64 rounds are a non-target; structural preconditions are decided under C09/C12",
